@@ -94,7 +94,7 @@ int main()
       cvm::clear_error();
       int err;
       if (cmd == "EF") {   // the same configuration through a file (cv configfile)
-        char fn[256]; snprintf(fn, sizeof(fn), "/tmp/wk/c02_conf_%d.in", (int) getpid());
+        char fn[256]; snprintf(fn, sizeof(fn), "c02_conf_%d.in", (int) getpid());  // in the working directory (never under /tmp)
         { std::ofstream f(fn); f << conf; }
         err = S.proxy->colvars->read_config_file(fn);
         remove(fn);
